@@ -8,6 +8,7 @@ import (
 	"fmt"
 	"os"
 	"slices"
+	"sync/atomic"
 	"time"
 
 	"google.golang.org/grpc/metadata"
@@ -127,7 +128,19 @@ func Open(dir string, o Opt) (*Store, error) {
 }
 
 // Stop shuts the store down gracefully (seq-db seals a sufficiently filled active fraction on exit).
-func (s *Store) Stop() { s.S.Stop() }
+// Stop stops the store. It gives up after two minutes (a store whose background goroutines are stuck must not turn every
+// clean-up into a watchdog expiry; the leaked store dies with the worker process). StopTimeouts counts such give-ups.
+func (s *Store) Stop() {
+	done := make(chan struct{})
+	go func() { s.S.Stop(); close(done) }()
+	select {
+	case <-done:
+	case <-time.After(2 * time.Minute):
+		StopTimeouts.Add(1)
+	}
+}
+
+var StopTimeouts atomic.Int64
 
 // Restart = graceful stop + open on the same directory.
 func (s *Store) Restart() (*Store, error) {
